@@ -1452,6 +1452,10 @@ func runC03() {
 			nested = append(nested, fmt.Sprintf(`all(AI, {%s and # startsWith "a"})`, in), fmt.Sprintf(`map(AI, {%s ? # + "x" : "y"})`, in),
 				fmt.Sprintf(`filter(AI, {# > 0 and %s and # matches "^a"})`, in))
 		}
+		// conditionals whose branches have DIFFERENT numeric kinds (the value keeps its branch's kind), used where
+		// the static kind selects a specialised instruction or a conversion
+		nested = append(nested, "(B ? U8 : I) == 1", "(B2 ? U8 : I) == I", "(B ? I : U8) == I", "(B ? I8 : I) == I", "B ? 1 : 2.5", "B2 ? 1 : 2.5", "(B ? I8 : I) + 1", "(B ? F32 : I) * 2",
+			"(B2 ? F64 : I) == 2", "(B ? U16 : I64) < 3", "[B ? U8 : I, B2 ? U8 : I]", "(B ? S : S2) == S", "(B ? AI : AS) == AI")
 		for _, s := range nested {
 			it := item{src: s, w: wU, fam: "nested builtins"}
 			if push(it) {
